@@ -9,12 +9,14 @@ TRUSTED = ("Trusted: numpy float64 oracles, Hypothesis generation/shrinking, the
 CHECKS = {
     "C01": dict(text="Generated-input search over every map kind, interpolation order, bunch count and displacement field with data constructed "
                      "inside each row's admissible interval; two oracles: total-sum conservation and operator column sums from unit impulses; the "
-                     "Fokker-Planck zero-bin defect is bounded by a factor times the damping decrement and confined to 3 rows.",
-                technique="property-based testing (Hypothesis + ctypes shim), conservation and column-sum oracles", ref="DESIGN.md §3 C01"),
+                     "Fokker-Planck zero-bin defect is bounded by a factor times the damping decrement and confined to 3 rows; displacement fields are installed after a "
+                     "generated history of other fields; coverage-guided libFuzzer target (fuzz_maps, oracle 'sum') on the kick map with the conservation oracle inside.",
+                technique="property-based testing (Hypothesis + ctypes shim), conservation and column-sum oracles; coverage-guided fuzzing (libFuzzer) with the conservation oracle in the target", ref="DESIGN.md §3 C01"),
     "C02": dict(text="Generated-input search: every weight set against the float64 Lagrange basis (quick: 2^22 sampled bit patterns "
                      "incl. denormals and boundaries; thorough: all 2^30 patterns x orders 2,3,4 enumerated), bitwise whole-cell-shift "
-                     "oracle on arbitrary finite binary32 data, polynomial-reproduction oracle with a negative control, RotationMap polynomial reproduction.",
-                technique="property-based testing (Hypothesis + ctypes shim), exhaustive enumeration of the weight domain in the thorough tier",
+                     "oracle on arbitrary finite binary32 data, polynomial-reproduction oracle with a negative control, RotationMap polynomial reproduction; coverage-guided libFuzzer target (fuzz_maps, "
+                     "oracle 'shift') with the bitwise whole-cell-shift oracle inside.",
+                technique="property-based testing (Hypothesis + ctypes shim), exhaustive enumeration of the weight domain in the thorough tier, coverage-guided fuzzing (libFuzzer) of whole-cell shifts",
                 ref="DESIGN.md §3 C02"),
     "C03": dict(text="Generated grids/shifts/steps/start distributions; centroid after every step of a full period against the exact rotation "
                      "(fixed sense, first-order splitting bound), against the float64 kick-drift matrix model, and between differently centred grids; "
@@ -62,8 +64,9 @@ CHECKS = {
                 technique="fault injection at enumerated interrupt points (property-based schedule generation; exhaustive per run in the thorough tier), differential bitwise oracle",
                 ref="DESIGN.md §3 C14"),
     "C15": dict(text="Blob oracle (particle vs centroid of a constructed two-row blob) for all kick maps and positions incl. edges; in-grid invariant over generated "
-                     "step sequences and all four Fokker-Planck tracking models; 5-sigma ensemble statistics of the stochastic model with a hook-seeded PRNG.",
-                technique="property-based testing: exact first-moment oracle, invariant over generated operation sequences, seeded statistical test", ref="DESIGN.md §3 C15"),
+                     "step sequences and all four Fokker-Planck tracking models; 5-sigma ensemble statistics of the stochastic model with a hook-seeded PRNG; long histories of tiny field updates on one map; coverage-guided "
+                     "libFuzzer target (fuzz_maps, oracle 'ingrid') for the in-grid invariant under finite, huge, infinite and NaN displacements.",
+                technique="property-based testing: exact first-moment oracle, invariant over generated operation sequences, seeded statistical test; coverage-guided fuzzing (libFuzzer) of the in-grid invariant", ref="DESIGN.md §3 C15"),
     "C16": dict(text="Shape/passivity/zero-upper-half for every model and sample count, scaling-law ratios and phases, parameter metamorphics, parallel-plates limits, "
                      "causality through the real wake code, factory result bitwise equal to the sum of separately built contributions.",
                 technique="property-based testing, ratio/metamorphic oracles and an impulse-response causality test", ref="DESIGN.md §3 C16"),
@@ -72,8 +75,9 @@ CHECKS = {
                      "cases of every API-level sub-check (26 generators borrowed from C01-C20) executed against the real classes in an ASan+UBSan build of the shim.",
                 technique="structured fuzzing of the whole program and of the API harness under ASan/UBSan, valgrind subset, libFuzzer target", ref="DESIGN.md §3 C17"),
     "C18": dict(text="Generated histories of set-profile / wake / pad / csr requests on one long-lived field, each answer compared bit for bit with a freshly "
-                     "constructed field given the current profiles.",
-                technique="stateful (model-based) property testing: history vs fresh object, bitwise oracle", ref="DESIGN.md §3 C18"),
+                     "constructed field given the current profiles; the same oracle inside a coverage-guided libFuzzer target (fuzz_field) that decodes bytes into a "
+                     "configuration and a history of up to 32 operations.",
+                technique="stateful (model-based) property testing and coverage-guided stateful fuzzing (libFuzzer): history vs fresh object, bitwise oracle", ref="DESIGN.md §3 C18"),
     "C19": dict(text="Dynamic RF map with zero amplitudes vs static map (bitwise, both models); recorded (phase, amplitude) pairs vs the kick actually in force and "
                      "the configured modulation across generated flush positions, noise seeded through the hook.",
                 technique="property-based differential testing (dynamic vs static map) and record/replay consistency", ref="DESIGN.md §3 C19"),
@@ -94,7 +98,7 @@ def main():
     hook_commits = [c.split()[0] for c in commits if "INOVESA_VERIF" in c or c.split(" ", 1)[1].startswith("verif-hook")]
     m = dict(
         version=1,
-        setup_cmd="python3 build.py h5x shim rel san fuzz shimsan fuzzcfg",
+        setup_cmd="python3 build.py h5x shim rel san fuzz shimsan fuzzcfg fuzzfield fuzzmaps",
         hooks=dict(guard="INOVESA_VERIF",
                    enable="build.py compiles every source of /repo's working tree with -DINOVESA_VERIF=1 (flavours rel, san, shim, fuzz)",
                    baseline_off_cmd="cmake --build /repo/_build && ctest --test-dir /repo/_build -j8 --timeout 900",
